@@ -300,6 +300,17 @@ macro_rules! edge4 { ($out:expr, $pools:expr, $rng:expr, $ng:expr, $s:ident, $d:
     let stride = (pool.len() / (4 * $ng).max(1)).max(1);
     let sub: Vec<[f64; 3]> = pool.iter().step_by(stride).cloned().collect();
     prec_edge::<$s<f32>, $d<f32>, $s<f64>, $d<f64>>($out, &e, &sub);
+    // coverage audit (c17_more2.rs): every lane assignment of two inputs on different branches / with a special value.  Own PRNG (a clone), no
+    // protocol lines: the random stream and the case stream of the clauses above are unchanged.
+    { let mut prng = $rng.clone(); let th = $ng > 1000;
+      let e = EdgeSpec { src: concat!("pat:", $sn), dst: $dn, cmp: $cmp, model: false };
+      let g = crate::c17_more2::pattern_groups($pool, pool, 4, &mut prng, th, $out);
+      simd_edge::<$s<f32>, $d<f32>, $s<f32x4>, $d<f32x4>, f32, 4>($out, &e, "f32x4", &g);
+      simd_edge::<$s<f64>, $d<f64>, $s<f64x4>, $d<f64x4>, f64, 4>($out, &e, "f64x4", &g);
+      let g = crate::c17_more2::pattern_groups($pool, pool, 8, &mut prng, th, $out);
+      simd_edge::<$s<f32>, $d<f32>, $s<f32x8>, $d<f32x8>, f32, 8>($out, &e, "f32x8", &g);
+      let g = crate::c17_more2::pattern_groups($pool, pool, 2, &mut prng, th, $out);
+      simd_edge::<$s<f64>, $d<f64>, $s<f64x2>, $d<f64x2>, f64, 2>($out, &e, "f64x2", &g); }
 }} }
 
 // ------------------------------------------------------------------------------------------------------------------
@@ -368,6 +379,15 @@ macro_rules! op4 { ($out:expr, $pools:expr, $rng:expr, $ng:expr, $c:ident, $pool
     op_run::<$c<f32>, $c<f32x8>, f32, f32x8, 8>($out, $name, "f32x8", &g, &cmp, |$a, $b, $p| $body, |$a, $b, $p| $body);
     let g = op_groups($pool, pool, 2, $rng, $ng, $plo, $phi);
     op_run::<$c<f64>, $c<f64x2>, f64, f64x2, 2>($out, $name, "f64x2", &g, &cmp, |$a, $b, $p| $body, |$a, $b, $p| $body);
+    // coverage audit (c17_more2.rs): every lane assignment of two (a, b, p) inputs; own PRNG (a clone)
+    { let mut prng = $rng.clone(); let th = $ng > 1000; let name_ = format!("pat:{}", $name); let name: &str = &name_;
+      let g = crate::c17_more2::pattern_op_groups($pool, pool, 4, &mut prng, $plo, $phi, th, $out);
+      op_run::<$c<f32>, $c<f32x4>, f32, f32x4, 4>($out, name, "f32x4", &g, &cmp, |$a, $b, $p| $body, |$a, $b, $p| $body);
+      op_run::<$c<f64>, $c<f64x4>, f64, f64x4, 4>($out, name, "f64x4", &g, &cmp, |$a, $b, $p| $body, |$a, $b, $p| $body);
+      let g = crate::c17_more2::pattern_op_groups($pool, pool, 8, &mut prng, $plo, $phi, th, $out);
+      op_run::<$c<f32>, $c<f32x8>, f32, f32x8, 8>($out, name, "f32x8", &g, &cmp, |$a, $b, $p| $body, |$a, $b, $p| $body);
+      let g = crate::c17_more2::pattern_op_groups($pool, pool, 2, &mut prng, $plo, $phi, th, $out);
+      op_run::<$c<f64>, $c<f64x2>, f64, f64x2, 2>($out, name, "f64x2", &g, &cmp, |$a, $b, $p| $body, |$a, $b, $p| $body); }
 }} }
 
 macro_rules! within4 { ($out:expr, $pools:expr, $rng:expr, $ng:expr, $c:ident, $pool:expr, $name:expr) => {{
@@ -390,6 +410,24 @@ macro_rules! within4 { ($out:expr, $pools:expr, $rng:expr, $ng:expr, $c:ident, $
     op_run::<$c<f32>, $c<f32x8>, f32, f32x8, 8>($out, concat!("clamp:", $name), "f32x8", &g8, &cmp, |a, _b, _p| a.clamp(), |a, _b, _p| a.clamp());
     let g2 = op_groups($pool, &pool, 2, $rng, $ng, 0.0, 1.0);
     op_run::<$c<f64>, $c<f64x2>, f64, f64x2, 2>($out, concat!("clamp:", $name), "f64x2", &g2, &cmp, |a, _b, _p| a.clamp(), |a, _b, _p| a.clamp());
+    // coverage audit (c17_more2.rs): every lane assignment of two inputs from the widened pool (in-bounds next to out-of-bounds lanes) and of the
+    // in-gamut special values (exactly on a bound) next to generic ones: mask lanes, clamp, clamp_assign for all four SIMD types
+    { let mut prng = $rng.clone(); let th = $ng > 500;
+      let g = crate::c17_more2::pattern_op_groups($pool, &pool, 4, &mut prng, 0.0, 1.0, th, $out);
+      mask_run::<$c<f32>, $c<f32x4>, f32, f32x4, 4>($out, &format!("pat:{}", $name), "f32x4", &g, |c| c.is_within_bounds(), |c| c.is_within_bounds());
+      mask_run::<$c<f64>, $c<f64x4>, f64, f64x4, 4>($out, &format!("pat:{}", $name), "f64x4", &g, |c| c.is_within_bounds(), |c| c.is_within_bounds());
+      op_run::<$c<f32>, $c<f32x4>, f32, f32x4, 4>($out, &format!("pat:clamp:{}", $name), "f32x4", &g, &cmp, |a, _b, _p| a.clamp(), |a, _b, _p| a.clamp());
+      op_run::<$c<f64>, $c<f64x4>, f64, f64x4, 4>($out, &format!("pat:clamp:{}", $name), "f64x4", &g, &cmp, |a, _b, _p| a.clamp(), |a, _b, _p| a.clamp());
+      op_run::<$c<f32>, $c<f32x4>, f32, f32x4, 4>($out, &format!("pat:clamp_assign:{}", $name), "f32x4", &g, &cmp, |mut a, _b, _p| { a.clamp_assign(); a }, |mut a, _b, _p| { a.clamp_assign(); a });
+      op_run::<$c<f64>, $c<f64x4>, f64, f64x4, 4>($out, &format!("pat:clamp_assign:{}", $name), "f64x4", &g, &cmp, |mut a, _b, _p| { a.clamp_assign(); a }, |mut a, _b, _p| { a.clamp_assign(); a });
+      let g = crate::c17_more2::pattern_op_groups($pool, &pool, 8, &mut prng, 0.0, 1.0, th, $out);
+      mask_run::<$c<f32>, $c<f32x8>, f32, f32x8, 8>($out, &format!("pat:{}", $name), "f32x8", &g, |c| c.is_within_bounds(), |c| c.is_within_bounds());
+      op_run::<$c<f32>, $c<f32x8>, f32, f32x8, 8>($out, &format!("pat:clamp:{}", $name), "f32x8", &g, &cmp, |a, _b, _p| a.clamp(), |a, _b, _p| a.clamp());
+      op_run::<$c<f32>, $c<f32x8>, f32, f32x8, 8>($out, &format!("pat:clamp_assign:{}", $name), "f32x8", &g, &cmp, |mut a, _b, _p| { a.clamp_assign(); a }, |mut a, _b, _p| { a.clamp_assign(); a });
+      let g = crate::c17_more2::pattern_op_groups($pool, &pool, 2, &mut prng, 0.0, 1.0, th, $out);
+      mask_run::<$c<f64>, $c<f64x2>, f64, f64x2, 2>($out, &format!("pat:{}", $name), "f64x2", &g, |c| c.is_within_bounds(), |c| c.is_within_bounds());
+      op_run::<$c<f64>, $c<f64x2>, f64, f64x2, 2>($out, &format!("pat:clamp:{}", $name), "f64x2", &g, &cmp, |a, _b, _p| a.clamp(), |a, _b, _p| a.clamp());
+      op_run::<$c<f64>, $c<f64x2>, f64, f64x2, 2>($out, &format!("pat:clamp_assign:{}", $name), "f64x2", &g, &cmp, |mut a, _b, _p| { a.clamp_assign(); a }, |mut a, _b, _p| { a.clamp_assign(); a }); }
     // correspondence lines for the clamp model (Rgb-like boxes only are modelled; the driver ignores nothing: only emitted for "Rgb")
     if $name == "Rgb" { for (ga, _, _) in g4.iter() {
         let la: [[f32; 3]; 4] = core::array::from_fn(|i| arr_of3::<f32>(ga[i]));
@@ -635,6 +673,10 @@ pub fn run(tier: &str, seed: u64, dir: &str) {
     // ---- the operations that compile for the wide types and are not driven above (colour differences, contrast, Luma, Cam16, the
     // `num`/`angle` traits on the wide types themselves, ...): `c17_more.rs`.  Called last, so that the case stream above is unchanged.
     crate::c17_more::run_more(out, rng, thorough, ng, &pools);
+    crate::c17_more::run_more_audit(out, rng, thorough, ng, &pools);
+    // ---- coverage audit (AUDIT_C17.md): packing arms / colour types / slice forms / wrapper forms never executed before, masks and the numeric
+    // traits at every lane position: `c17_more2.rs`
+    crate::c17_more2::run_more2(out, seed, thorough, &pools);
 
     }
     out_.finish(dir, "");
